@@ -279,6 +279,54 @@ def check_multimol(case, stats):
     return viols, True
 
 
+# ---------------------------------------------------------------- the same atom types in two sections with their own tables
+def twosec_cases(tier):
+    for layout in ("one-molecule", "bond-molecule-first", "constraint-molecule-first"):
+        for bdir in ("fwd", "bwd"):
+            for cdir in ("fwd", "bwd"):
+                for tdir in ("same", "reversed"):
+                    for counts in ((1, 1), (2, 2)):
+                        yield dict(kind="twosec", layout=layout, bdir=bdir, cdir=cdir, tdir=tdir, counts=list(counts))
+
+
+def check_twosec(case, stats):
+    """a bond and a constraint between atoms of the same two types, both written with the function only: the bond takes its
+    parameters from [ bondtypes ], the constraint from [ constrainttypes ], in one molecule type or in two (either order),
+    whatever direction the two are listed in"""
+    viols = []
+    at = [f"{t} 12.0 0.0 A 0.3 0.1" for t in ("TA", "TB")]
+    ctype = "TA TB 1 0.147" if case["tdir"] == "same" else "TB TA 1 0.147"
+    out = ["[ defaults ]", "1 2 no 1.0 1.0", "[ atomtypes ]"] + at + ["[ bondtypes ]", "TA TB 1 0.153 3347", "[ constrainttypes ]", ctype]
+    bline = "1 2 1" if case["bdir"] == "fwd" else "2 1 1"
+    cline = "3 4 1" if case["cdir"] == "fwd" else "4 3 1"
+    atoms4 = [f"{i} {t} 1 R a{i} {i} 0.0 12.0" for i, t in enumerate(["TA", "TB", "TA", "TB"], 1)]
+    if case["layout"] == "one-molecule":
+        mols = [("M", atoms4, ["[ bonds ]", bline, "2 3 1 0.2 100", "[ constraints ]", cline])]
+    else:
+        mb = ("MB", atoms4[:2], ["[ bonds ]", bline])
+        mc = ("MC", atoms4[:2], ["[ bonds ]", "1 2 5", "[ constraints ]", cline.replace("3", "1").replace("4", "2")])
+        mols = [mb, mc] if case["layout"] == "bond-molecule-first" else [mc, mb]
+    for name, atoms, inter in mols:
+        out += ["[ moleculetype ]", f"{name} 1", "[ atoms ]"] + atoms + inter
+    out += ["[ system ]", "v", "[ molecules ]"] + [f"{name} {c}" for (name, _, _), c in zip(mols, case["counts"])]
+    try:
+        top = read_pre("\n".join(out) + "\n")
+    except Exception as exc:  # noqa
+        return [crash_violation(exc, case, assertion="preprocess-does-not-crash")], True
+    for n, mm in enumerate(top.molecules):
+        for sec, want in (("bonds", ("1", "0.153", "3347")), ("constraints", ("1", "0.147"))):
+            for i in mm.molecule.interactions.get(sec, []):
+                got = tuple(str(p) for p in i.parameters)
+                if len(got) > 1 and got[1] in ("0.2",):
+                    continue
+                if got in (("5",),):
+                    continue
+                if got != want:
+                    viols.append(dict(assertion="type-from-the-table-of-its-own-section", tags=["same-types-in-two-sections"],
+                                      message=f"instance {n} ({mm.mol_name}) {sec} {tuple(i.atoms)}: parameters {got} expected {want} | {case}", case=case, detail={}))
+    return viols, True
+
+
 # ---------------------------------------------------------------- non-bonded
 def nb_cases(tier):
     types = ["TA", "TB", "TC"]
@@ -450,7 +498,7 @@ def cases(tier):
             batch = []
     if batch:
         yield dict(kind="batch", items=batch, tier=tier)
-    batch = list(simple_cases(tier)) + list(multimol_cases(tier))
+    batch = list(simple_cases(tier)) + list(multimol_cases(tier)) + list(twosec_cases(tier))
     for i in range(0, len(batch), 12):
         yield dict(kind="batch", items=batch[i:i + 12], tier=tier)
     batch = list(nb_cases(tier))
@@ -458,7 +506,7 @@ def cases(tier):
         yield dict(kind="batch", items=batch[i:i + 24], tier=tier)
 
 
-FUNCS = {"functype": check_functype, "multimol": check_multimol, "dih": check_dih, "simple": check_simple, "macro": check_macro, "opls": check_opls, "nb": check_nb}
+FUNCS = {"twosec": check_twosec, "functype": check_functype, "multimol": check_multimol, "dih": check_dih, "simple": check_simple, "macro": check_macro, "opls": check_opls, "nb": check_nb}
 
 
 def run_case(case):
